@@ -124,7 +124,11 @@ fn op_dispatch(op: &str, a: &[&str]) -> String {
             let mode = if has("eval") { rustpython_parser::Mode::Expression } else if has("single") { rustpython_parser::Mode::Interactive } else { rustpython_parser::Mode::Module };
             crate::engines::c12::op(&unhex(a[0]), has("trees"), mode)
         }
-        "c13" => crate::engines::c13::op(&unhex(a[0])),
+        "c13" => {
+            let has = |w: &str| a.iter().skip(1).any(|s| *s == w);
+            let mode = if has("eval") { rustpython_parser::Mode::Expression } else if has("single") { rustpython_parser::Mode::Interactive } else { rustpython_parser::Mode::Module };
+            crate::engines::c13::op(&unhex(a[0]), mode)
+        }
         "c03" => crate::engines::c03::op(&unhex(a[0])),
         "c09mode" => {
             let e = crate::engines::c09::mode_from_str_check();
